@@ -5,7 +5,8 @@
    `wfp c x` is the well-formedness predicate of codec c (field ranges: uintN below 2^N, arrays of their size,
    at most 2500 clauses / 2 unused reserved values, tail-trimmed reserved / extension, every length below 2^64). *)
 From Coq Require Import List NArith Bool.
-From Verif Require Import Codec.Model Codec.ProofsRLP Codec.ProofsComb Codec.ProofsObjects Codec.ProofsTop.
+From Verif Require Import Codec.Model Codec.ProofsRLP Codec.ProofsComb Codec.ProofsObjects Codec.ProofsTop
+  Codec.ProofsItem Codec.ProofsRaw Codec.ProofsSign.
 Import ListNotations.
 Open Scope N_scope.
 
@@ -13,6 +14,12 @@ Open Scope N_scope.
 Theorem rlp_head_canonical b k c r :
   shead b = Some (k, c, r) <-> b = enc_head k c ++ c ++ r /\ hok k c.
 Proof. split; [apply shead_sound|]. intros [-> H]. apply shead_complete, H. Qed.
+
+(* generic items (what decodeInterface / the encoder do with nested lists of strings), for all items and inputs *)
+Theorem rlp_decode_encode i r : wf_item i -> decode (encode i ++ r) = Some (i, r).
+Proof. exact (rlp_decode_encode_l i r). Qed.
+Theorem rlp_canonical b i r : decode b = Some (i, r) -> b = encode i ++ r.
+Proof. exact (rlp_canonical_l b i r). Qed.
 
 (* 2. transactions (both types): round trip, and decode => re-encode identical, except exactly F2 *)
 Theorem tx_roundtrip t : wfp c_tx t -> tx_has_nil_list t = false -> go_decode_tx (go_reencode_tx t) = Some t.
@@ -58,6 +65,20 @@ Theorem block_decode_canonical_except bs b :
   go_decode_block bs = Some b -> block_has_nil_list b = false -> go_reencode_block b = bs /\ wfp c_block b.
 Proof. exact (block_decode_canonical_except_l bs b). Qed.
 
+(* the two-phase decode used on the sync path returns exactly what the one-phase decode returns *)
+Theorem rawblock_two_phase_agrees b : go_decode_block_raw b = go_decode_block b.
+Proof. exact (two_phase_agrees_l b). Qed.
+(* Clauses.DecodeRLP: the counting loop only enforces the bound; otherwise it is the plain list decoder *)
+Theorem clauses_decoder_is_bounded_slice b l r :
+  dec c_clauses b = Some (l, r) <-> dec (cslice c_clause) b = Some (l, r) /\ lenN l <= max_clauses.
+Proof.
+  split.
+  - intros H. pose proof (proj1 c_clauses_ok b l r H) as [Hb [W Hl]]. split; [|exact Hl].
+    subst b. exact (proj2 cslice_clause_ok l r W).
+  - intros [H Hl]. pose proof (proj1 cslice_clause_ok b l r H) as [Hb W]. subst b.
+    exact (proj2 c_clauses_ok l r (conj W Hl)).
+Qed.
+
 (* 4. id binding: the preimage of the signing hash is injective in every signed field (hash opaque:
       equal preimages => equal fields); the hash preimage additionally fixes the signature *)
 Theorem tx_signing_fields_injective t1 t2 :
@@ -73,6 +94,13 @@ Theorem header_fields_injective h1 h2 :
   wfp (cwrap header_sign_fields) (header_sign_tuple h1) -> wfp (cwrap header_sign_fields) (header_sign_tuple h2) ->
   header_signing_bytes h1 = header_signing_bytes h2 -> header_sign_tuple h1 = header_sign_tuple h2.
 Proof. exact (header_signing_injective_l h1 h2). Qed.
+
+(* every object a decoder can return satisfies the premises of the injectivity theorems *)
+Theorem decoded_tx_signing_wf b t : go_decode_tx b = Some t ->
+  if t_dyn t then wfp (cwrap dyn_sign_fields) (dyn_sign_tuple t) else wfp (cwrap legacy_sign_fields) (legacy_sign_tuple t).
+Proof. intros H. apply tx_sign_wf. exact (proj2 (tx_decode_sound_l b t H)). Qed.
+Theorem decoded_header_signing_wf b h : go_decode_header b = Some h -> wfp (cwrap header_sign_fields) (header_sign_tuple h).
+Proof. intros H. apply header_sign_wf. exact (proj2 (header_decode_canonical_l b h H)). Qed.
 
 (* non-vacuity: concrete objects satisfying the hypotheses *)
 Definition ex_clause := mkClause (Ptr (repeat 7 20)) 1000000000000000000 [1; 2; 3].
@@ -105,7 +133,16 @@ Proof.
   - apply (dec_exact_sound _ (enc (cwrap header_sign_fields) (header_sign_tuple ex_header)) _ (proj1 header_sign_ok)). vm_compute. reflexivity.
 Qed.
 
+Example ex_item_wf : wf_item (Lst [Str [1]; Lst [Str (repeat 7 60); Lst []]; Str []]).
+Proof. cbn. unfold two64. repeat split; exact eq_refl. Qed.
+
 Print Assumptions rlp_head_canonical.
+Print Assumptions rlp_decode_encode.
+Print Assumptions rlp_canonical.
+Print Assumptions rawblock_two_phase_agrees.
+Print Assumptions clauses_decoder_is_bounded_slice.
+Print Assumptions decoded_tx_signing_wf.
+Print Assumptions decoded_header_signing_wf.
 Print Assumptions tx_roundtrip.
 Print Assumptions tx_decode_encode.
 Print Assumptions tx_decode_is_encoding.
